@@ -110,10 +110,15 @@ def gen_cases(rng, tier):
     big = [{"kind": kind, "n": ns, "b": b, "extra": 6, "update_every": 1, "selected": 2, "requests": _req(ns, b),
             "seed": rng.randrange(1 << 30), "jit": True}
            for kind in ("ode_rar", "statio_rar") for (ns, b) in ((40, 8), (64, 16))]
-    return cases + jitted + big
+    # a large observation table (index stores of tens of thousands of rows: integer width of the row indices)
+    large = [{"kind": "obs_large", "n": n, "b": b, "requests": n // b, "seed": rng.randrange(1 << 30)}
+             for (n, b) in ((40000, 4000),) + (() if tier == "quick" else ((65000, 5000), (33000, 3000)))]
+    return cases + jitted + big + large
 
 
 def shrink_candidates(case):
+    if case["kind"] == "obs_large":
+        return
     if case["kind"] == "nonstatio":
         if case["requests"] > 2:
             yield {**case, "requests": case["requests"] // 2}
@@ -143,8 +148,35 @@ def _label_fn(rows):
     return lab, distinct
 
 
+def _run_large(case):
+    """one whole epoch of a large observation loader, judged on the multiset of served rows (the Lean predicate
+    works on explicit lists: this scope is checked arithmetically instead -- every row of the table exactly once
+    per epoch when b divides n, input and value of a served row from the same table row)"""
+    import jax
+    import jax.numpy as jnp
+    import numpy as np
+    from jinns.data._DataGenerators import DataGeneratorObservations
+
+    n, b = case["n"], case["b"]
+    ids = jnp.arange(n, dtype=jnp.float64)[:, None]
+    g = DataGeneratorObservations(jax.random.PRNGKey(case["seed"]), b, ids, 2 * ids)
+    served, aligned = [], True
+    for _ in range(n // b):
+        g, bt = g.get_batch()
+        x = np.asarray(bt["pinn_in"]).reshape(-1)
+        v = np.asarray(bt["val"]).reshape(-1)
+        aligned = aligned and bool(np.all(v == 2 * x))
+        served.append(x.astype(np.int64))
+    served = np.concatenate(served)
+    return {"large": {"served": int(served.size), "distinct": int(np.unique(served).size), "min": int(served.min()),
+                      "max": int(served.max()), "aligned": aligned}}
+
+
 def run_impl(case):
     import jax
+
+    if case["kind"] == "obs_large":
+        return _run_large(case)
 
     # jitted cases run in the library's DEFAULT precision (x32: cursors are int32, as in a user's
     # session); the workers otherwise enable x64
@@ -271,12 +303,21 @@ def _cursor_of(g, kind, name):
 
 
 def lean_request(case, obs):
+    if case["kind"] == "obs_large":
+        return None
     return [{"op": "c09", "store0": t["store0"], "b": t["b"], "nEff": t["nEff"],
              **({"active": t["active"]} if "active" in t else {}),
              "trace": t["trace"]} for _, t in sorted(obs["traces"].items())]
 
 
 def judge(case, obs, answers):
+    if case["kind"] == "obs_large":
+        o, n = obs["large"], case["n"]
+        if o["distinct"] != n or o["served"] != n or o["min"] != 0 or o["max"] != n - 1:
+            return {"status": "violation", "clause": "point-served-twice-or-never-within-an-epoch(large table)", "obs": o}
+        if not o["aligned"]:
+            return {"status": "violation", "clause": "served-row-not-a-row-of-the-table(large table)", "obs": o}
+        return {"status": "ok", "clause": None}
     names = sorted(obs["traces"])
     for name, a in zip(names, answers):
         if not obs["traces"][name]["distinct"]:
@@ -295,6 +336,8 @@ def judge(case, obs, answers):
 
 
 def nontrivial(case, obs):
+    if case["kind"] == "obs_large":
+        return True
     for t in obs["traces"].values():
         if t["distinct"] and sum(1 for r in t["trace"][1:] if r["reset"]) >= 1 and len(t["store0"]) > 1:
             return True
@@ -302,6 +345,8 @@ def nontrivial(case, obs):
 
 
 def tags(case, obs):
+    if case["kind"] == "obs_large":
+        return [f"kind=obs_large(n={case['n']})"]
     out = [f"kind={case['kind']}", "b_divides_n" if case["n"] % case["b"] == 0 else "b_not_dividing_n",
            "mode=jit,x32" if case.get("jit") else "mode=eager,x64"]
     if case["kind"] == "nonstatio":
